@@ -526,7 +526,7 @@ package iavl
 // Rollback: the working tree becomes the last saved tree again and BOTH
 // uncommitted overlays are emptied.
 //@ func (*MutableTree).Rollback(tree)
-//@   props C01 C09 C07
+//@   props C01 C02 C09 C07
 //@   requires tree != nil && tree.ImmutableTree != nil && tree.lastSaved != nil
 //@   ensures [tree] tree.ImmutableTree != nil && fresh(tree.ImmutableTree) && tree.ImmutableTree.root == ite(old(tree.ImmutableTree.version) > 0, old(tree.lastSaved.root), nil)
 //@   ensures [version] tree.ImmutableTree.version == ite(old(tree.ImmutableTree.version) > 0, old(tree.lastSaved.version), 0)
